@@ -14,7 +14,14 @@ every history of expressions of any length and every starting table of children:
 * `C18_reuse`, `C18_reuse_history`, `C18_slice_reuse` — the same expression again gives the same node(s) and
   changes nothing (child count included); `C18_parentless_fresh` — without a parent every expression makes a
   new node.
+* `C18_rewrite_children_unchanged` — writing an expression of the history again leaves the whole table of
+  children as it was (nothing removed, swapped or added), for any labelling of expressions.
 * `C18_share_iff` — two expressions share a node **iff** their labels are equal.
+* `C18_distinct_printer` — the operand-printing function as a parameter: for EVERY function `pr` that decides
+  what of an operand enters the key, distinct operands ⇒ distinct keys ⇒ distinct labels ⇒ distinct nodes,
+  provided `pr` is injective on the operands of the history (`PrInjOn`); `C18_opKey_injective`,
+  `C18_distinct_opKey` — the function in /repo (type name + full `repr`) is; `C18_truncating_printer_witness` —
+  a size-bounded repr is not, and the statement is FALSE for it.
 * `C18_label_injective` — what exactly is assumed about `hash`: it is injective on the keys of the explored
   expressions (`HashInjOn`).  Together with "class names contain no underscore" (`ClsOk`, a `decide`d fact of
   the operator table, `C18_table_clsOk`) equal labels `injected_<Class>_<hash>` then have equal keys.
@@ -57,6 +64,13 @@ theorem C18_reuse_history (H : Key → String) (p : Printer) (st : St) (par : Na
     (h1 : (e, n1) ∈ es.zip (injAll H p st par es).2) (h2 : (e, n2) ∈ es.zip (injAll H p st par es).2) :
     n1 = n2 :=
   (share_iff H p st par es hwf e e n1 n2 h1 h2).mpr rfl
+
+/-- **the set of children is unchanged by writing an existing expression again**, at any point of any history
+and for any way of labelling expressions: the whole table of children (labels, nodes, order) stays as it was,
+nothing is removed, replaced or added -/
+theorem C18_rewrite_children_unchanged (L : Expr → String) (st : St) (par : Nat) (es : List Expr) (e : Expr)
+    (he : e ∈ es) : (injAllL L st par (es ++ [e])).1 = (injAllL L st par es).1 :=
+  rewrite_noop L st par es e he
 
 /-- outside a parent nothing can be looked up: every expression makes a new node -/
 theorem C18_parentless_fresh (H : Key → String) (p : Printer) (st : St) (e1 e2 : Expr) :
@@ -241,14 +255,27 @@ it: the second expression is handed the first one's node -/
 theorem C18_truncating_printer_witness :
     truncKey 8 (.raw "str" "abcdefgh-1" "'abcdefgh-1'") = truncKey 8 (.raw "str" "abcdefgh-2" "'abcdefgh-2'") ∧
     ¬ DistinctStatementWith (truncKey 8) := by
-  refine ⟨by decide, fun h => ?_⟩
-  have hk : keyWith (truncKey 8) wLongA = keyWith (truncKey 8) wLongB := by decide
-  have hres : (injAllL (labelWith (fun _ => "0") (truncKey 8)) emptySt 0 [wLongA, wLongB]).2 = [0, 0] := by decide
+  refine ⟨by simp [truncKey], fun h => ?_⟩
+  have hk : keyWith (truncKey 8) wLongA = keyWith (truncKey 8) wLongB := by
+    simp [keyWith, wLongA, wLongB, truncKey]
+  have hl : labelWith (fun _ => "0") (truncKey 8) wLongA = labelWith (fun _ => "0") (truncKey 8) wLongB := by
+    have hc : wLongA.cls = wLongB.cls := rfl
+    unfold labelWith
+    rw [hk, hc]
+  have hres : (injAllL (labelWith (fun _ => "0") (truncKey 8)) emptySt 0 [wLongA, wLongB]).2 = [0, 0] := by
+    simp only [injAllL]
+    rw [injectL_new _ emptySt 0 wLongA (by rfl)]
+    rw [injectL_found _ _ 0 wLongB 0 (by rw [← hl]; simp [emptySt])]
+    rfl
   have := h (fun _ => "0") emptySt 0 [wLongA, wLongB] emptySt_WF
     (by
       intro e1 h1 e2 h2 _
       simp only [List.mem_cons, List.not_mem_nil, or_false] at h1 h2
-      rcases h1 with rfl | rfl <;> rcases h2 with rfl | rfl <;> first | rfl | exact hk | exact hk.symm)
+      rcases h1 with rfl | rfl <;> rcases h2 with rfl | rfl
+      · rfl
+      · exact hk
+      · exact hk.symm
+      · rfl)
     (by
       intro e he
       simp only [List.mem_cons, List.not_mem_nil, or_false] at he
@@ -406,6 +433,7 @@ def exMulB : Expr := ⟨1, "a__user_input", "Multiply", [.chan 2 "b__user_input"
 def exEs : List Expr := [wAddInt, exAdd2, wAddInt, exMulB, exAdd2]
 
 example : (injAll exH .pinned emptySt 0 exEs).2 = [0, 1, 0, 2, 1] := by decide
+example : exAdd2 ∈ exEs ∧ ((injAll exH .pinned emptySt 0 (exEs ++ [exAdd2])).1.children 0).length = 3 := by decide
 example : ((injAll exH .pinned emptySt 0 exEs).1.children 0).length = 3 := by decide
 example : HashInjOn exH .pinned exEs ∧ PrintInjective .pinned exEs := by
   unfold HashInjOn PrintInjective; decide
@@ -452,6 +480,7 @@ end PwVerif.C18
 
 #print axioms PwVerif.C18.C18_reuse
 #print axioms PwVerif.C18.C18_reuse_history
+#print axioms PwVerif.C18.C18_rewrite_children_unchanged
 #print axioms PwVerif.C18.C18_parentless_fresh
 #print axioms PwVerif.C18.C18_share_iff
 #print axioms PwVerif.C18.C18_table_clsOk
